@@ -345,15 +345,8 @@ def run(ctx):
                          "same units built first and exported afterwards", bound="5 programs", key_of=repr)
     ctx.verify(cs.unused_engine(), cs.VERIFY_UNUSED, min_obligations={cs.VERIFY_UNUSED[0].key: 3})
     n_sites, offenders = cs.series_site_audit()
-    ctx.obligations += 1
-    if offenders or n_sites < 3:
-        from vcheck.core import Violation
-        ctx.violations.append(Violation("hdl21.generators:Series/internal-names", f"Series / Wrapper name an internal object without "
-                              f"_unused_name ({n_sites} naming sites): {offenders[:3]}", {"property": "C19", "obligation":
-                              "callsite/internal-names-through-_unused_name", "offenders": offenders}, False))
-    else:
-        ctx.discharged += 1
-        ctx.by_backend["ast-audit"] = ctx.by_backend.get("ast-audit", 0) + 1
+    ctx.frame_audit("hdl21.generators:Series/internal-names", offenders or ([("naming sites", n_sites)] if n_sites < 3 else []),
+                    "Series / Wrapper name an internal object without _unused_name")
     from contracts import c_instance as ci
     key, obs, info = ci.call_obligations()
     for u in info.get("unsupported", []):
